@@ -16,7 +16,7 @@ import StorageModel.C15.Layout
      name 9 is the name the parent strategy refuses; so are more than three roles
      roles = - | r.r.r     child = n (nil) | <value>     ids 0..4 (0 = ""), values 0..4 (0 = "")
    output line: one segment per transaction, joined by " ;; ":
-     <results> commit|abort E <events delivered> F <FindById…> Q <QueryIds…> I <Iterate…> X <index reads…> D <bucket dump>
+     <results> commit|abort E <events delivered> F <FindById…> L <LoadById|LoadEntity|IsEntityPresent,GetEntityBucket…> Q <QueryIds…> I <Iterate…> X <index reads…> D <bucket dump>
 
    case line:   g <history>             as h, with the child stores registered in the order A2, A1
 
@@ -122,6 +122,27 @@ def obsFind (st : St) : String :=
     s!"{k}.{id}=" ++ (match findById st s id with
       | none => "-"
       | some (n, r, c) => s!"{n}/{natList r}/" ++ (if s == .A then "_" else optVal c))
+
+def foundS (s : Sel) : Option Found → String
+  | none => "-"
+  | some (n, r, c) => s!"{n}/{natList r}/" ++ (if s == .A then "_" else optVal c)
+
+/-- every lookup API, per store and id: `<s>.<id>=<LoadById>|<LoadEntity>|<IsEntityPresent><GetEntityBucket != nil>`
+    (FindById is the `F` segment) -/
+def obsLookups (st : St) : String :=
+  " ".intercalate <| sels.flatMap fun (k, s) => idRange.map fun id =>
+    s!"{k}.{id}=" ++ (match loadById st s id with
+      | .ok x => foundS s (some x)
+      | .error e => errStr e) ++ "|" ++ foundS s (loadEntity st s id) ++ "|" ++
+      (if isEntityPresent st s id then "P" else "-") ++ (if entityBucketNonNil st s id then "B" else "-")
+
+/-- the specification's answers, from the table and the `owns` predicate alone -/
+def specLookups (ents : Ents) : String :=
+  " ".intercalate <| sels.flatMap fun (k, s) => idRange.map fun id =>
+    s!"{k}.{id}=" ++ (match ownedLookup ents s id with
+      | some x => foundS s (some x)
+      | none => "notfound") ++ "|" ++ foundS s (ownedLookup ents s id) ++ "|" ++
+      (if ownsData ents s id then "PB" else "--")
 
 def obsQuery (st : St) : String :=
   " ".intercalate <| sels.flatMap fun (k, s) =>
@@ -244,8 +265,8 @@ def dumpS (sh : Shape) (ents : Ents) : String :=
       | none => []
       | some e => entLines sh.sch (b id) e) (derive ents))
 
-def observe (st : St) (dump : String) : String :=
-  s!"F {obsFind st} Q {obsQuery st} I {obsIter st} X {obsIdx st} D {dump}"
+def observe (st : St) (lookups : String) (dump : String) : String :=
+  s!"F {obsFind st} L {lookups} Q {obsQuery st} I {obsIter st} X {obsIdx st} D {dump}"
 
 def selS : Sel → String
   | .A => "0"
@@ -265,7 +286,7 @@ def runOps {σ : Type} (f : σ → OpX → Except Err σ) (view : σ → St) (st
     | .ok st' => runOps f view st' evf rest ("ok" :: acc) (evs ++ evf (view st) op)
     | .error e => (none, (errStr e :: acc).reverse, [])
 
-def runHist {σ : Type} (f : σ → OpX → Except Err σ) (view : σ → St) (dump : σ → String) (st : σ)
+def runHist {σ : Type} (f : σ → OpX → Except Err σ) (view : σ → St) (dump : σ → String × String) (st : σ)
     (evf : St → OpX → List Ev) : List (List OpX) → List String → List String
   | [], acc => acc.reverse
   | tx :: rest, acc =>
@@ -273,7 +294,7 @@ def runHist {σ : Type} (f : σ → OpX → Except Err σ) (view : σ → St) (d
     let st' := r.getD st
     let evText := if evs.isEmpty then "-" else ",".intercalate (evs.map evS)
     let seg := ",".intercalate res ++ (if r.isSome then " commit " else " abort ") ++ "E " ++ evText ++ " " ++
-      observe (view st') (dump st')
+      observe (view st') (dump st').1 (dump st').2
     runHist f view dump st' evf rest (seg :: acc)
 
 /-! cursor scripts and provider queries (`k` lines) -/
@@ -355,7 +376,8 @@ def step (line : String) : String :=
     match parseKind kind, parseHist h with
     | some (k, sh), some hist =>
       let go (evf : St → OpX → List Ev) :=
-        runHist (stepC Config.current sh.sch) (absSt sh.sch) (dumpC sh) StC.init evf hist []
+        runHist (stepC Config.current sh.sch) (absSt sh.sch) (fun stc => (obsLookups (absSt sh.sch stc), dumpC sh stc))
+          StC.init evf hist []
       match k, rest with
       | "h", [] => " ;; ".intercalate (go (eventsOfXWith eventsOf))
       | "g", [] => " ;; ".intercalate (go (eventsOfXWith (eventsOfOrd true)))
@@ -377,7 +399,7 @@ def specStep (line : String) : String :=
     match parseKind kind, parseHist h with
     | some (k, sh), some hist =>
       let go (evf : St → OpX → List Ev) :=
-        runHist specOpX derive (dumpS sh) ([] : Ents) evf hist []
+        runHist specOpX derive (fun ents => (specLookups ents, dumpS sh ents)) ([] : Ents) evf hist []
       match k, rest with
       | "h", [] => " ;; ".intercalate (go (eventsOfXWith eventsOf))
       | "g", [] => " ;; ".intercalate (go (eventsOfXWith (eventsOfOrd true)))
